@@ -474,3 +474,26 @@ def rule_foreign_feedback_table(ctx, idx, T, rid="R03.8"):
             if got != want:
                 r.violate(key, f"in {ns.split('::')[-1]} content a <{name or t}> start tag gives `{got}`, specification-derived table says `{want}`" + (": every such tag is handed to the lexer and its bytes are held back until the tag is complete although nothing depends on it" if got == "request" else ""), "src/parser/tree_builder_simulator/mod.rs")
     r.control(("font" not in T.FOREIGN_BREAKOUT) and ("p" in T.FOREIGN_BREAKOUT), "reference break-out list has <p> but not the conditional <font>")
+    # end tags: in foreign content the namespace is left for the root's own end tag and for </p>, </br>;
+    # in the HTML content of an integration point for the integration point's own end tag (annotation-xml: full tag needed)
+    sl = idx.one("should_leave_ns", owner="TreeBuilderSimulator")
+    ce = idx.one("check_integration_point_exit", owner="TreeBuilderSimulator")
+    it2 = Interp(idx, helpers={("method", "leave_ns"): lambda itp, rv, args, env: "LEAVE", "request_lexeme": lambda itp, args, env: "REQUEST",
+                               ("method", "len"): lambda itp, rv, args, env: 2, "index": lambda itp, e, env: env["<prev_ns>"]})
+    for ns, root, ips in (("Namespace::Svg", "svg", T.SVG_HTML_INTEGRATION_POINTS), ("Namespace::MathML", "math", T.MATHML_TEXT_INTEGRATION_POINTS)):
+        for t in [OTHER, EMPTY] + tags:
+            name = lc(t) if t not in (OTHER, EMPTY) else None
+            try:
+                v = it2.call_fn(sl, [t], self_env={"self.current_ns": ns})
+                w = it2.call_fn(ce, [t], self_env={"self.ns_stack": Sym("stack"), "<prev_ns>": ns})
+            except EngineError as e:
+                raise EngineError(rid + ": " + str(e))
+            key = "end|%s|%s" % (ns.split("::")[-1], t)
+            r.inst(key, nontrivial=False)
+            want = name in (root, "p", "br")
+            if v is not want:
+                r.violate(key, f"in {ns.split('::')[-1]} content the end tag </{name or t}> {'leaves' if v else 'does not leave'} the namespace; reference: {'leave' if want else 'stay'}", "src/parser/tree_builder_simulator/mod.rs")
+            got = {"LEAVE": "leave", "REQUEST": "request"}.get(w, "none" if str(w).endswith("TreeBuilderFeedback::None") else repr(w))
+            want2 = "leave" if name in ips else ("request" if (t == EMPTY and ns == "Namespace::MathML") else "none")
+            if got != want2:
+                r.violate(key + "|integration-point-exit", f"inside an HTML integration point of {ns.split('::')[-1]} the end tag </{name or t}> gives `{got}`; reference `{want2}`", "src/parser/tree_builder_simulator/mod.rs")
